@@ -228,7 +228,26 @@ func runC15(tier string, seed uint64, idx int) core.Result {
 	defer h.Close()
 	u := genUniverse(rng, 6+rng.IntN(10))
 	maxIdx := 0
+	bulkPrefix, bulkAt := "", -1
+	if rng.IntN(3) == 0 {
+		// a block of indexed records that one delete range removes: both sides of the engine's 100-key switch
+		n := []int{99, 100, 101, 150}[rng.IntN(4)]
+		bulkPrefix = []string{"bulk", "bulk/"}[rng.IntN(2)]
+		if !h.bulkLoad(bulkPrefix, n) {
+			return r.Done()
+		}
+		bulkAt = 5 + rng.IntN(20)
+		r.Count("bulk_blocks", 1)
+	}
 	for i := 0; i < 30 && r.Violations() == 0; i++ {
+		if i == bulkAt {
+			req := &proto.WriteRequest{DeleteRanges: []*proto.DeleteRangeRequest{{StartInclusive: bulkPrefix + "0000", EndExclusive: bulkPrefix + "9999"}}}
+			if _, _, ok := h.step(req); !ok || !h.dumpCompare() || !h.indexBattery() {
+				break
+			}
+			r.Count("bulk_ranges_deleted", 1)
+			continue
+		}
 		switch rng.IntN(10) {
 		case 0:
 			if len(h.liveSessions) < 2 {
